@@ -29,6 +29,9 @@ object *users = ({ });
 mapping faults = ([ ]);
 mixed *log = ({ });
 int reg(object u) { users += ({ u }); return sizeof(users) - 1; }
+string kind = "error";
+void set_kind(string k) { kind = k; }
+string query_kind() { return kind; }
 void set_fault(string site, int times) { faults[site] = times; }
 int fault(string site) {
   int f = faults[site];
@@ -48,24 +51,33 @@ void co_faulty() { log += ({ ({ "co_faulty", time() }) }); if (fault("call_out")
 USER = r'''
 int id = -1;
 void create() { seteuid(getuid()); }
+// what a faulting task of this user object does: raise an error, or take its own object / connection away in the middle of the task
+void boom(string site) {
+  switch ("/t/c09d"->query_kind()) {
+  case "destruct": destruct(this_object()); return;
+  case "exec": { object o = new("/t/c09user2"); exec(o, this_object()); return; }
+  case "remove": remove_interactive(this_object()); return;
+  }
+  error("fault in " + site + "\n");
+}
 void logon() {
   id = "/t/c09d"->reg(this_object());
   "/t/c09d"->note(({ "logon", id }));
   enable_commands(); add_action("cmd_any", "", 1);
-  if ("/t/c09d"->fault("logon")) error("fault in logon\n");
+  if ("/t/c09d"->fault("logon")) boom("logon");
 }
 int cmd_any(string arg) {
   "/t/c09d"->note(({ "cmd", id, query_verb() }));
-  if (query_verb() != "canary" && "/t/c09d"->fault("cmd")) error("fault in cmd\n");
+  if (query_verb() != "canary" && "/t/c09d"->fault("cmd")) boom("cmd");
   return 1;
 }
-mixed process_input(string s) { if (s != "canary" && "/t/c09d"->fault("process_input")) error("fault in process_input\n"); return 0; }
-void net_dead() { "/t/c09d"->note(({ "net_dead", id })); if ("/t/c09d"->fault("net_dead")) error("fault in net_dead\n"); }
-void write_prompt() { if ("/t/c09d"->fault("write_prompt")) error("fault in write_prompt\n"); }
-void set_terminal_type(string t) { if ("/t/c09d"->fault("terminal_type")) error("fault in terminal_type\n"); }
-void set_window_size(int w, int h) { if ("/t/c09d"->fault("window_size")) error("fault in window_size\n"); }
+mixed process_input(string s) { if (s != "canary" && "/t/c09d"->fault("process_input")) boom("process_input"); return 0; }
+void net_dead() { "/t/c09d"->note(({ "net_dead", id })); if ("/t/c09d"->fault("net_dead")) boom("net_dead"); }
+void write_prompt() { if ("/t/c09d"->fault("write_prompt")) boom("write_prompt"); }
+void set_terminal_type(string t) { if ("/t/c09d"->fault("terminal_type")) boom("terminal_type"); }
+void set_window_size(int w, int h) { if ("/t/c09d"->fault("window_size")) boom("window_size"); }
 void arm() { input_to("got_input"); }
-void got_input(string s) { "/t/c09d"->note(({ "input_to", id, s })); if ("/t/c09d"->fault("input_to")) error("fault in input_to\n"); }
+void got_input(string s) { "/t/c09d"->note(({ "input_to", id, s })); if ("/t/c09d"->fault("input_to")) boom("input_to"); }
 void enter(string room) { move_object(load_object(room)); }
 void catch_tell(string s) { }
 '''
@@ -107,12 +119,14 @@ def cases(draw):
             ev.append([draw(st.sampled_from(["input_to", "move"])), draw(st.integers(0, nconn - 1))])
         else:
             ev.append(["tick", 1])
-    return dict(handler=handler, faults=faults, events=ev)
+    # what "fault" means for the tasks of a user object: error(), or the object / its connection goes away inside the task
+    return dict(handler=handler, faults=faults, events=ev, kind=draw(st.sampled_from(["error", "error", "destruct", "exec", "remove"])))
 
 
 def evaluate_case(ctx, pool, case):
     w = pool.get(case["handler"])
     steps = [["load", "t/c09d.c"], ["call", "/master", "set_policy", arg("handler"), arg("fail" if case["handler"] == "fail" else "log")]]
+    steps.append(["call", "t/c09d", "set_kind", arg(case.get("kind", "error"))])
     for site, times in case["faults"]:
         steps.append(["call", "t/c09d", "set_fault", arg(site), arg(times)])
         if site == "connect":
@@ -184,7 +198,10 @@ def evaluate_case(ctx, pool, case):
     er = res.step(fin - 1)
     errs = [x for x in unjson(er["v"])[1]] if er and er.get("st") == "val" else []
     reported = " ".join(str(e) for e in errs) + res.stderr
+    USER_SITES = ("cmd", "process_input", "logon", "net_dead", "write_prompt", "terminal_type", "window_size", "input_to")
     for f in fired:
+        if case.get("kind", "error") != "error" and f[1] in USER_SITES:
+            continue       # this user-object task did not raise an error: it took its object or its connection away
         if case["handler"] == "fail" and "error in mudlib error handler" in reported:
             continue       # the handler itself failed: the driver reports that failure (with location and trace) instead
         if ("fault in " + f[1]) not in reported and f[1] != "connect":
@@ -200,7 +217,7 @@ class Pool:
     def get(self, handler):
         key = "absent" if handler == "absent" else "std"
         if key not in self.w:
-            files = {"t/c09d.c": DAEMON, "user.c": USER, "t/c09room.c": ROOM, "t/c09hb_canary.c": HB.replace("NAME", '"canary"'),
+            files = {"t/c09d.c": DAEMON, "user.c": USER, "t/c09user2.c": USER, "t/c09room.c": ROOM, "t/c09hb_canary.c": HB.replace("NAME", '"canary"'),
                      "t/c09hb_faulty.c": HB.replace("NAME", '"faulty"')}
             if key == "absent":
                 m = open(os.path.join(BASE_MUDLIB, "master.c")).read().replace("mixed error_handler(", "mixed error_handler_absent(")
